@@ -164,6 +164,7 @@ def run_case(case):
         flog.removeHandler(handler)
         flog.setLevel(old_level)
     res["nontrivial"] = True
+    res["evaluated"] = c.get("permutations", 0)
     if case["i"] < 1:
         res["sample"] = {"feature_text": fea[:1500], "handmade": made, "glyphs": len(names)}
     return res
